@@ -6,6 +6,7 @@ pub mod c05;
 pub mod c11;
 pub mod c12;
 pub mod c13;
+pub mod c14;
 pub mod c16;
 pub mod c17;
 pub mod c18;
@@ -20,6 +21,7 @@ pub fn registry(id: &str) -> Option<(&'static str, fn(&mut Ctx), ReplayFn)> {
         "C11" => ("C11", c11::run, c11::replay),
         "C12" => ("C12", c12::run, c12::replay),
         "C13" => ("C13", c13::run, c13::replay),
+        "C14" => ("C14", c14::run, c14::replay),
         "C16" => ("C16", c16::run, c16::replay),
         "C17" => ("C17", c17::run, c17::replay),
         "C18" => ("C18", c18::run, c18::replay),
@@ -29,7 +31,7 @@ pub fn registry(id: &str) -> Option<(&'static str, fn(&mut Ctx), ReplayFn)> {
     })
 }
 
-pub const ALL_IDS: &[&str] = &["C05", "C11", "C12", "C13", "C16", "C17", "C18", "C19", "C20"];
+pub const ALL_IDS: &[&str] = &["C05", "C11", "C12", "C13", "C14", "C16", "C17", "C18", "C19", "C20"];
 
 /// E4: replay every committed reproduction of this property.
 /// A file that matches an *open* known finding prints its KNOWN-FINDING line;
